@@ -23,6 +23,7 @@ Theorem C05_views_agree : forall (A : Type) (eqb : A -> A -> bool),
     lv_depth t = S h /\
     Forall (fun r => length r = S h) (flatten t) /\
     (forall d, M_values_at_depth t d = Ok (S_column (flatten t) d)) /\
+    (forall d, M_labels_at_depth t d = Ok (S_column (flatten t) d)) /\
     M_blocks t = Ok (map (S_column (flatten t)) (seq 0 (S h))) /\
     (forall key, M_contains A eqb key t = S_contains A eqb (flatten t) key) /\
     (forall key, M_leaf_loc A eqb key t 0 = S_lookup A eqb (flatten t) key).
@@ -33,8 +34,8 @@ Print Assumptions C05_views_agree.
    partial_selection, `except KeyError: pass`, flattening of the collected parts) returns exactly what the
    nested-loop specification over the flat tuples demands -- positions, their order (a list selector orders
    its level by the list) and the single-position flag -- for every well-formed tree and every key inside
-   the guard (Boolean arrays at the innermost depth only and of the index length; at most one selector per
-   depth).  Half-open label slices at every depth are covered (open ends bounded by the leaf, fix cc33791). *)
+   the guard (Boolean arrays and stepped label slices at the innermost depth only; masks of the index length;
+   step <> 0; a slice walking down is closed; at most one selector per depth).  Half-open label slices at every depth are covered (open ends bounded by the leaf, fix cc33791). *)
 Theorem C05_hloc_exact : forall (A : Type) (eqb : A -> A -> bool),
   (forall x y, eqb x y = true <-> x = y) ->
   forall (key : list (sel A)) (t : level A) (h : nat),
